@@ -183,6 +183,14 @@ def run_c07(prop, cfg, tier, seed):
         lean_ok = lean_ok and ok
     nq = 4000 if tier == "quick" else 60000
     cases = corpus_mid(prop) + gen_mid(seed, nq) + gen_mid(seed + 17, nq // 4, throws=True)
+    # bounded-exhaustive: EVERY grammar of 2 rules with bodies of at most 3 nodes and of 3 rules with bodies of at most 2
+    # nodes (leaves: a literal, "", a reference to each rule; ? * + & !; sequence and choice of two), each in two visiting
+    # orders: 102 672 cases, 3 s for the real analysis and the model together
+    pe = subprocess.run([PVMID, "-enum"], stdout=subprocess.PIPE, stderr=subprocess.PIPE, timeout=600)
+    if pe.returncode != 0:
+        raise RuntimeError("pvmid -enum failed: " + pe.stderr.decode()[-2000:])
+    enum_cases = [l for l in pe.stdout.decode().splitlines() if l.startswith("mid ")]
+    cases += enum_cases
     # renumber ids to be unique
     cases = [" ".join(["mid", str(i + 1)] + c.split(" ")[2:]) for i, c in enumerate(cases)]
     impl, model = run_mid_cases(cases)
